@@ -4,6 +4,8 @@
   modelled: the shifted instants enter as facts checked by the executor against Go's `time`.
 -/
 import C4E.Vesting
+import C4E.Minter
+import C4E.Distributor
 namespace C4E.Upgrade
 open C4E C4E.Vest
 
@@ -103,5 +105,64 @@ def shiftedAccounts : List String :=
 /-- `upgradeVestingAccounnt`: only the schedule of a continuous vesting account moves -/
 def shiftAccount (a : Acct) (newStart newEnd : Int) : Acct :=
   if a.kind = .cva then { a with startS := newStart, endS := newEnd } else a
+
+/-! ## parameter migrations of consensus version 2 → 3 (x/cfeminter/migrations/v3/params.go,
+    x/cfedistributor/migrations/v3/params.go) -/
+
+def tNo := "NO_MINTING"
+def tLin := "LINEAR_MINTING"
+def tExp := "EXPONENTIAL_STEP_MINTING"
+
+/-- `types.LegacyMinter`: a type tag and two optional configuration messages -/
+structure LegacyM where
+  seq : Nat
+  endT : Option Int
+  type : String
+  lin : Option Int := none                    -- LinearMinting{Amount}
+  exp : Option (Int × Int × Int) := none      -- ExponentialStepMinting{Amount, StepDuration, AmountMultiplier}
+deriving Repr, DecidableEq, Inhabited
+
+/-- `LegacyMinter.validate` -/
+def legacyMinterOk (m : LegacyM) : Bool :=
+  if m.type = tNo then m.lin.isNone && m.exp.isNone
+  else if m.type = tLin then
+    m.exp.isNone && m.endT.isSome && (match m.lin with | some a => !(a < 0) | none => false)
+  else if m.type = tExp then
+    m.lin.isNone && (match m.exp with | some (a, st, mu) => !(a < 0) && !(mu < 0) && !(st ≤ 0) | none => false)
+  else false
+
+/-- the per-position loop of `MinterConfig.Validate` (same ordering rules as the new parameters) -/
+def legacyLoop (multi : Bool) : Nat → Int → List LegacyM → Bool
+  | _, _, [] => true
+  | id, prevEnd, m :: rest =>
+    !Minter.idBad id m.seq && !Minter.endExistBad rest.isEmpty m.endT &&
+    !Minter.endValueBad multi rest.isEmpty m.endT prevEnd && legacyMinterOk m &&
+    legacyLoop multi m.seq (m.endT.getD prevEnd) rest
+
+def sortLegacy (l : List LegacyM) : List LegacyM := sortBy (fun a b => a.seq < b.seq) l
+
+/-- `MinterConfig.Validate` -/
+def legacyValid (start : Int) (ms : List LegacyM) : Bool :=
+  !(ms.length < 1) && legacyLoop ((sortLegacy ms).length > 1) 0 start (sortLegacy ms)
+
+/-- the new minter written by the migration: the configuration message selected by the type tag,
+    packed into an `Any` (anything that is not exponential or linear becomes `NoMinting`) -/
+def legacyToRaw (m : LegacyM) : Minter.RawMinter :=
+  { seq := m.seq, endT := m.endT,
+    cfg := if m.type = tExp then
+             (match m.exp with | some (a, st, mu) => .exp (some a) st (some mu) | none => .nilCfg)
+           else if m.type = tLin then
+             (match m.lin with | some a => .lin (some a) | none => .nilCfg)
+           else .noMint }
+
+/-- `v3.MigrateParams` of x/cfeminter: none = the migration returns an error (nothing is written) -/
+def migrateMinterV3 (denom : String) (start : Int) (ms : List LegacyM) : Option Minter.Params :=
+  if !legacyValid start ms then none else
+  -- `Validate` sorted the legacy slice in place; the new minters are built in that order
+  Minter.validate { denom := denom, start := start, minters := (sortLegacy ms).map legacyToRaw }
+
+/-- `v3.MigrateParams` of x/cfedistributor: the stored list is validated and rewritten unchanged -/
+def migrateDistrV3 (e : Distr.Env) (subs : List Distr.SubD) : Option (List Distr.SubD) :=
+  if Distr.paramsValid e subs then some subs else none
 
 end C4E.Upgrade
